@@ -403,6 +403,40 @@ func TestC20(t *testing.T) {
 		}
 	}, propC20(nil))
 
+	// 7a'. the same positions with runes that Unicode case mapping, folding or width conversion relates to ASCII
+	// characters (U+0130 lowers to i, U+212A to k, U+017F upper-cases to S, full-width forms, combining marks,
+	// invisible characters): none of them is an ASCII letter, digit or separator of these grammars
+	hh.Enumerate(h, "grammar-lookalikes", func(yield func(c20Case)) {
+		runes := []string{"\u0130", "\u0131", "\u212a", "\u212b", "\u017f", "\uff41", "\uff21", "\uff10", "\uff20", "\uff0e", "\uff0d", "\u00df", "a\u0301", "\u00ad", "\u200b", "\u200d", "\u00e9", "\u00c9", "\u0430", "\u0391", "\u2010", "\u2024", "\ufe52", "\u3002"}
+		k := 0
+		for _, c := range runes {
+			subjects := []string{
+				c + "@ex.com", "a" + c + "b@ex.com", "ab" + c + "@ex.com", c + "smail@example.com",
+				"ab@" + c + "x.com", "ab@e" + c + "x.com", "ab@ex" + c + ".com", "ab@ex.c" + c + "m", "ab@ex.co" + c, "kelvin@" + c + ".example.com", "ab@ex" + c + "com", "ab" + c + "ex.com",
+			}
+			for _, sub := range subjects {
+				for _, not := range []bool{false, true} {
+					for _, mode := range modes {
+						yield(c20Case{Kind: model.KString, Test: model.TestSpec{Name: "email", Not: not}, Subject: model.Str(sub), Mode: mode})
+					}
+				}
+			}
+			uuid := "123e4567-e89b-12d3-a456-426614174000"
+			for _, pos := range []int{0, 7, 8, 9, 13, 14, 18, 19, 23, 35} {
+				k++
+				yield(c20Case{Kind: model.KString, Test: model.TestSpec{Name: "uuid"}, Subject: model.Str(uuid[:pos] + c + uuid[pos+1:]), Mode: modes[k%len(modes)]})
+			}
+			for _, name := range []string{"upper", "digit", "special"} {
+				for _, not := range []bool{false, true} {
+					for _, mode := range modes {
+						yield(c20Case{Kind: model.KString, Test: model.TestSpec{Name: name, Not: not}, Subject: model.Str("ab" + c + "cd"), Mode: mode})
+						yield(c20Case{Kind: model.KString, Test: model.TestSpec{Name: name, Not: not}, Subject: model.Str(c), Mode: mode})
+					}
+				}
+			}
+		}
+	}, propC20(nil))
+
 	// 7b. URL shapes: every combination of the optional components after scheme://host
 	hh.Enumerate(h, "url-shapes", func(yield func(c20Case)) {
 		i := 0
